@@ -111,8 +111,8 @@ def outerKey (ts : TagSet) : TagSet :=
   | some t => [t]
   | none => []
 
-/-- `NamedTypes.minTagSet` of an untagged CHOICE: the smallest tag set among the alternatives
-    (recursively for nested untagged CHOICEs) -/
+/-- `NamedTypes.minTagSet` of an untagged CHOICE: the tag set with the smallest outermost tag among
+    the alternatives (recursively for nested untagged CHOICEs) -/
 def Ty.minTagSet : Ty → TagSet
   | .choice fs => Fields.minTagSet fs none
   | t => t.tags
@@ -123,7 +123,7 @@ where
       let ts := if t.tags.isEmpty then t.minTagSet else t.tags
       match acc with
       | none => Fields.minTagSet r (some ts)
-      | some a => Fields.minTagSet r (some (if tagSetLe a ts then a else ts))
+      | some a => Fields.minTagSet r (some (if tagSetLe (outerKey a) (outerKey ts) then a else ts))
 
 /-- `effectiveTagSet` of a value: its own tag set, or for an untagged CHOICE that of the selected
     alternative (recursively) -/
